@@ -62,34 +62,19 @@ def corpus_specs():
     return out
 
 
-def setup(ctx):
-    """translators + tie + CLIs + harness; returns dict or None (already reported)"""
-    repo = ctx.copy_repo()
-    ok, detail = bl.run_translators(ctx, repo)
-    if not ok:
-        ctx.report({"unchecked": "translator tie (xlate_tmpl_methods / xlate_basic_kinds)", "detail": detail},
-                   {"kind": "translator"}, failing_input=False)
-        return None
-    tie = bl.run_tie(ctx)
-    ctx.log("tie over regenerated tables:", "OK" if tie["ok"] else "BROKEN - " + "; ".join(tie["broken"])[:600])
-    if tie.get("same_as_hand"):
-        ctx.log("regenerated tables equal the hand copies (templates, interfaces, kinds):", tie["same_as_hand"])
-    clibin, log = bl.build_clis(ctx, repo)
-    if not clibin:
-        ctx.report({"unchecked": "building the generator CLIs from the current tree", "detail": log},
-                   {"kind": "build"}, failing_input=False)
-        return None
-    binp, log = ctx.build_harness("c13")
-    if not binp:
-        ctx.report({"unchecked": "harness build", "detail": log[-3000:]}, {"kind": "build"}, failing_input=False)
-        return None
-    return {"repo": repo, "tie": tie, "clibin": clibin, "bin": binp}
-
-
 HEADER = ("From Coq Require Import String List Bool.\nImport ListNotations.\n"
           "From GT Require Import Base.Verdict GenBuildModel GenBuildJudge.\n"
-          "From GTgen Require Import TmplMethodsGen BasicKindsGen.\nLocal Open Scope string_scope.\n")
+          "From GTgen Require Import GenTables.\nLocal Open Scope string_scope.\n")
 JUDGE = "gb_judge gen_tables gen_kinds gen_render"
+
+VERDICT = {1: "the generator neither reported an error nor produced a gofmt-clean package that builds with the "
+              "interface assertions",
+           2: "observation satisfies the property but differs from the Coq model's prediction"}
+
+
+def is_known(ctx, f):
+    return any(fd.get("property") == ctx.pid and fd.get("status") == "open" and fd.get("match") and
+               all(f.get(a) == b for a, b in fd["match"].items()) for fd in ctx.findings)
 
 
 def run(ctx):
@@ -100,63 +85,134 @@ def run(ctx):
         "parsable values, unsupported tag options, missing GError, non-struct, duplicate priorities) must be "
         "reported as errors and are judged as such",
         "shapes owned by the genum trait-semantics property (C12) are judged against the spec only; the model abstains",
-        "go vet diagnostics are recorded, not gated (the property speaks about building)",
+        "go vet diagnostics are recorded in the evidence, not gated (the property speaks about building and "
+        "gofmt formatting; gofmt -l and go build gate)",
     ]
-    ctx.obligations_or_violation()
-    st = setup(ctx)
-    if st is None:
-        return
     quick = ctx.tier == "quick"
-    terms, cases = [], []
-    cs = corpus_specs()
-    runs = [("main", "quick" if quick else "thorough", cs or None, ["-vet=true"])]
-    for tag, mode, specs, extra in runs:
-        t, c, err, log = bl.run_farm(ctx, st["bin"], st["clibin"], st["repo"], tag, mode, specs, extra)
-        if err:
-            ctx.report({"unchecked": "farm run " + tag, "detail": err}, {"kind": "harness"}, failing_input=False)
-            return
-        for line in log.splitlines():
+    # problems without a concrete failing input are deferred: failing inputs (verdict 1) are reported
+    # first and take the replay slots; a deferred problem becomes a `no-failing-input-found` line only
+    # when the (widened) farm run shows no unlisted verdict-1 case
+    deferred = []
+
+    def defer(rep, feat):
+        deferred.append((rep, feat))
+        ctx.log("deferred (no failing input yet): %s" % rep.get("unchecked"))
+
+    ok, detail = ctx.proof_obligations()
+    ctx.log("proof obligations:", "OK" if ok else "BROKEN", "-", detail.splitlines()[0])
+    if not ok:
+        defer({"unchecked": "theorem file Props/C13.v", "detail": detail}, {"kind": "proof_obligation"})
+    repo = ctx.copy_repo()
+    coq_judge = True
+    tok, tdetail = bl.run_translators(ctx, repo)
+    if tok:
+        tie = bl.run_tie(ctx)
+    else:
+        defer({"unchecked": "translator tie (xlate_tmpl_methods / xlate_basic_kinds / interface signatures)",
+               "detail": tdetail}, {"kind": "translator"})
+        tie = {"ok": False, "broken": ["translator failed: " + tdetail.splitlines()[0]], "detail": tdetail,
+               "translator_failed": True}
+        # judge the farm against the hand copies instead, so that failing inputs are still found
+        rc, o = ctx.coq_eval("GenTables", bl.HAND_TABLES, timeout=300)
+        coq_judge = rc == 0
+    ctx.log("tie over regenerated tables:", "OK" if tie["ok"] else "BROKEN - " + "; ".join(tie["broken"])[:600])
+    if tie.get("same_as_hand"):
+        ctx.log("regenerated tables equal the hand copies (templates, interface names, kinds, interface "
+                "signatures):", tie["same_as_hand"])
+    clibin, log = bl.build_clis(ctx, repo)
+    binp, hlog = (None, "") if not clibin else ctx.build_harness("c13")
+    if not clibin or not binp:
+        defer({"unchecked": "building the generator CLIs / the farm harness from the current tree",
+               "detail": (log or hlog)[-3000:]}, {"kind": "build"})
+        for rep, feat in deferred:
+            ctx.report(rep, feat, failing_input=False)
+        return
+
+    def farm(tag, mode, specs=None, extra=()):
+        res = bl.run_farm(ctx, binp, clibin, repo, tag, mode, specs, extra)
+        for line in (res["log"] or "").splitlines():
             if line.startswith("c13:"):
                 ctx.log(tag, line)
-        terms += t
-        cases += c
-    bad, nt, err = ctx.judge_cases(HEADER, "gb_case", JUDGE, terms, shard=400, nontrivial="gb_nontrivial",
-                                   tag="farm")
-    if err:
-        ctx.report({"unchecked": "in-kernel evaluation of the farm observations", "detail": err},
-                   {"kind": "coq_eval"}, failing_input=False)
-        return
+        return res
+
+    def judge(terms, cases, tag):
+        """[(index, code)]: inside Coq; when the Coq side itself is broken, the spec alone
+        (outcome bad) is applied here so that failing inputs are still found"""
+        if coq_judge:
+            bad, nt, err = ctx.judge_cases(HEADER, "gb_case", JUDGE, terms, shard=400,
+                                           nontrivial="gb_nontrivial", tag=tag)
+            if not err:
+                return bad, nt
+            defer({"unchecked": "in-kernel evaluation of the farm observations", "detail": err},
+                  {"kind": "coq_eval"})
+        return [(i, 1) for i, c in enumerate(cases) if c["obs"]["outcome"] == "bad"], 0
 
     def farm_runner(tag, specs):
-        _, c, e, _ = bl.run_farm(ctx, st["bin"], st["clibin"], st["repo"], tag, "spec", specs, ["-vet=false"])
-        return None if e else c
+        r = bl.run_farm(ctx, binp, clibin, repo, tag, "spec", specs, ["-vet=false"])
+        return None if r["err"] else r["cases"]
 
-    # group the disagreements: one report per distinct problem, minimised
+    cs = corpus_specs()
+    res = farm("main", "quick" if quick else "thorough", cs or None, ["-vet=true"])
+    if res["err"]:
+        defer({"unchecked": "farm run", "detail": res["err"]}, {"kind": "harness"})
+        for rep, feat in deferred:
+            ctx.report(rep, feat, failing_input=False)
+        return
+    terms, cases = res["terms"], res["cases"]
+    cprob = bl.canary_problems(res["canaries"])
+    if cprob:
+        defer({"unchecked": "the farm's own observation pipeline (canary packages: unformatted file, syntax "
+                            "error, type error, good file)", "detail": cprob}, {"kind": "canary"})
+    bad, nt = judge(terms, cases, "farm")
+
+    def group(bad, cases, groups, order):
+        for i, code in bad:
+            c = cases[i]
+            if code == 1:
+                feats = bl.problems(c)
+            else:
+                feats = [{"tool": c["tool"], "shape": "", "error_class": "model_disagreement",
+                          "detail": "observed %s%s" % (c["obs"]["outcome"],
+                                                       ", format fallback" if c["obs"].get("format_fallback") else ""),
+                          "where": ""}]
+            for f in feats:
+                k = json.dumps(f, sort_keys=True)
+                if k not in groups:
+                    groups[k] = (f, code, [])
+                    order.append(k)
+                groups[k][2].append(c)
+
     groups, order = {}, []
-    for i, code in bad:
-        c = cases[i]
-        if code == 1:
-            feats = bl.problems(c)
-        else:
-            feats = [{"tool": c["tool"], "shape": "", "error_class": "model_disagreement",
-                      "detail": "observed %s" % c["obs"]["outcome"], "where": ",".join(c.get("shapes", []))}]
-        for f in feats:
-            k = json.dumps(f, sort_keys=True)
-            if k not in groups:
-                groups[k] = (f, code, [])
-                order.append(k)
-            groups[k][2].append(i)
-    explained_tie = False
-    # smallest definition of each group first, then minimise on the real generators (the groups
-    # that are not known findings, at most five, in parallel)
-    reps, todo = {}, []
-    for k in order:
-        f, code, idx = groups[k]
-        reps[k] = min((cases[i] for i in idx), key=lambda c: len(json.dumps(c["spec"])))
-        known = any(fd.get("property") == ctx.pid and fd.get("status") == "open" and fd.get("match") and
-                    all(f.get(a) == b for a, b in fd["match"].items()) for fd in ctx.findings)
-        if code == 1 and not known and len(todo) < 5:
-            todo.append(k)
+    group(bad, cases, groups, order)
+
+    def unlisted_v1():
+        return [k for k in order if groups[k][1] == 1 and not is_known(ctx, groups[k][0])]
+
+    # widened farm run (quick tier): something is wrong (broken obligation / tie / translator, or a
+    # verdict-2 disagreement) but no concrete failing input has shown up yet
+    need_witness = bool(deferred) or not tie["ok"] or any(groups[k][1] == 2 for k in order)
+    widened = None
+    if quick and need_witness and not unlisted_v1():
+        masks = bl.settings_masks(tie.get("broken", []))
+        extra = ["-vet=false", "-subsets", "1", "-max", "400"]
+        if masks:
+            extra += ["-settings", ",".join(str(m) for m in masks)]
+        ctx.log("no failing input yet: widened farm run (thorough catalogue, %s)" % (
+            "settings " + ",".join(str(m) for m in masks) if masks else "seeded sample of 400"))
+        wres = farm("widen", "thorough", None, extra)
+        if not wres["err"]:
+            wbad, _ = judge(wres["terms"], wres["cases"], "widen")
+            group(wbad, wres["cases"], groups, order)
+            widened = {"packages": len(wres["cases"]), "disagreements": len(wbad)}
+            cases = cases + wres["cases"]
+
+    v1u = unlisted_v1()
+    v1k = [k for k in order if groups[k][1] == 1 and k not in v1u]
+    v2 = [k for k in order if groups[k][1] == 2]
+    # representatives: smallest definition of each group, unlisted verdict-1 groups minimised on the
+    # real generators (at most five = the replay slots, in parallel)
+    reps = {k: min(groups[k][2], key=lambda c: len(json.dumps(c["spec"]))) for k in order}
+    todo = v1u[:5]
     if todo:
         import concurrent.futures
         with concurrent.futures.ThreadPoolExecutor(max_workers=5) as ex:
@@ -164,29 +220,49 @@ def run(ctx):
                                  8 if quick else 14, "g%d" % n) for n, k in enumerate(todo)}
             for k, fu in futs.items():
                 reps[k] = fu.result()
-    for k in order:
-        f, code, idx = groups[k]
-        rep_case = reps[k]
-        rep = {"case": bl.view(rep_case),
-               "verdict": {1: "the generator neither reported an error nor produced a gofmt-clean package that "
-                              "builds with the interface assertions",
-                           2: "observation satisfies the property but differs from the Coq model's prediction"}[code],
-               "problem": f, "cases_with_this_problem": len(idx),
-               "replay_cmd": "./check C13 --replay <this file>"}
-        r = ctx.report(rep, f, failing_input=(code == 1))
-        if r == "violation" and code == 1 and f.get("error_class") in ("missing_method", "undefined"):
-            explained_tie = True
-    tie = st["tie"]
-    if not tie["ok"] and not explained_tie:
-        ctx.report({"unchecked": "theorems C13_methods_current_tree / C13_basic_kinds_current_tree over the "
-                                 "tables regenerated from the current tree",
-                    "model_side_witness": tie["broken"], "detail": tie["detail"]},
-                   {"kind": "tie"}, failing_input=False)
-    elif not tie["ok"]:
-        ctx.log("broken tie is witnessed by the failing inputs above:", "; ".join(tie["broken"])[:400])
+
+    def rep_of(k):
+        f, code, cs_ = groups[k]
+        return {"case": bl.view(reps[k]), "verdict": VERDICT[code], "problem": f,
+                "cases_with_this_problem": len(cs_), "replay_cmd": "./check C13 --replay <this file>"}
+
+    # 1. concrete failing inputs first (they take the replay slots), 2. known findings,
+    # 3. only without an unlisted failing input: verdict-2 cases and deferred problems
+    for k in v1u:
+        ctx.report(rep_of(k), groups[k][0], failing_input=True)
+    for k in v1k:
+        ctx.report(rep_of(k), groups[k][0], failing_input=True)
+    secondary = []
+    if not tie["ok"] and not tie.get("translator_failed"):
+        deferred.append(({"unchecked": "theorems C13_methods_current_tree / C13_basic_kinds_current_tree over "
+                                       "the tables regenerated from the current tree",
+                          "model_side_witness": tie["broken"], "detail": tie.get("detail", "")}, {"kind": "tie"}))
+    if v1u:
+        for k in v2:
+            secondary.append({"problem": groups[k][0], "cases": len(groups[k][2])})
+        for rep, feat in deferred:
+            secondary.append({"problem": feat, "unchecked": rep.get("unchecked"),
+                              "witness": rep.get("model_side_witness")})
+        if secondary:
+            ctx.log("%d further problem(s) without a failing input of their own are witnessed by / listed next "
+                    "to the failing inputs above (evidence: secondary_problems): %s" % (
+                        len(secondary), "; ".join(str(x.get("unchecked") or x["problem"]) for x in secondary)[:500]))
+    else:
+        for rep, feat in deferred:
+            if widened is not None:
+                rep = dict(rep, widened_farm_run=widened)
+            ctx.report(rep, feat, failing_input=False)
+        for k in v2:
+            ctx.report(rep_of(k), groups[k][0], failing_input=False)
 
     genum = [c for c in cases if c["tool"] == "genum"]
     settings = {tuple(sorted(c["flags"].items())) for c in genum}
+    vet = {}
+    for c in cases:
+        for line in c["obs"].get("vet") or []:
+            msg = line.split(": ", 1)[-1].strip()
+            if msg and not msg.startswith("#"):
+                vet.setdefault(msg, []).append("%s %s" % (c.get("label"), c.get("go_generate")))
     ctx.cov.update({
         "evaluations": len(cases),
         "distinct_nontrivial": vlib.distinct_count(
@@ -204,20 +280,27 @@ def run(ctx):
         "exhaustive_note": "all 32 json/yaml/text/caseInsensitive/disableTraits settings are covered in both tiers; "
                            "thorough crosses every catalogue definition with all 32 settings and the subsets of "
                            "value-distinct parsable traits (capped per definition)",
+        "gating": "generator exit status, output file written, gofmt -l, go build with interface assertions; "
+                  "go vet is recorded only",
         "by_tool_outcome": hist("%s/%s/%s" % (c["tool"], c["kind"], c["obs"]["outcome"]) for c in cases),
         "by_label": hist(c.get("label") for c in cases),
         "trait_kind_histogram": hist(k for c in genum for k in c.get("trait_kinds", [])),
         "shape_histogram": hist(s for c in cases for s in c.get("shapes", [])),
         "parsable_some": sum(1 for c in genum if c.get("parsable_some")),
+        "format_fallback_runs": sum(1 for c in cases if c["obs"].get("format_fallback")),
         "vet_complaints_on_built_packages": sum(1 for c in cases if c["obs"].get("vet")),
+        "vet_findings": [{"message": m, "packages": len(v), "example": v[0]} for m, v in sorted(vet.items())][:20],
+        "canaries": {"checked": len(res["canaries"]), "problems": cprob},
         "tie": {"ok": tie["ok"], "broken": tie["broken"], "same_as_hand": tie.get("same_as_hand"),
-                "render_expr": tie.get("render")},
+                "render_expr": tie.get("render"), "interface_signature_tables_cover": tie.get("isigs_cover")},
+        "widened_farm_run": widened,
+        "secondary_problems": secondary,
         "samples": [bl.view(c) for c in (cases[:2] + cases[-2:])],
         "disagreements": len(bad),
         "generate_seconds_median": sorted(c["obs"]["secs"] for c in cases)[len(cases) // 2] if cases else 0,
     })
-    ctx.log("farm: %d packages (%d genum settings), %d disagreement(s) in %d problem group(s)" % (
-        len(cases), len(settings), len(bad), len(order)))
+    ctx.log("farm: %d packages (%d genum settings), %d problem group(s): %d failing-input, %d known, %d model-only" % (
+        len(cases), len(settings), len(order), len(v1u), len(v1k), len(v2)))
 
 
 def nontrivial(c):
@@ -255,10 +338,11 @@ def replay(ctx, path):
         print(log, log2)
         return 2
     spec["kind"] = "replay"
-    _, cases, err, _ = bl.run_farm(ctx, binp, clibin, repo, "replay", "spec", [spec], ["-vet=false"])
-    if err:
-        print(err)
+    r = bl.run_farm(ctx, binp, clibin, repo, "replay", "spec", [spec], ["-vet=false"])
+    if r["err"]:
+        print(r["err"])
         return 2
+    cases = r["cases"]
     c = cases[0]
     print(json.dumps(bl.view(c), indent=1))
     print("outcome on the current tree:", c["obs"]["outcome"])
